@@ -128,6 +128,18 @@ def cases(tier, seed):
                     out.append({"functional": functional, "method": method, "family": fam, "dtype": "float64", "n": 24,
                                 "shape": "n", "bck_method": bck, "placement": placement, "guess": "zero",
                                 "cot": "dense", "plane": 0, "seed": 0})
+    # option combinations of the backward solver whose convergence is certain (silence required)
+    for functional in ("rootfinder", "equilibrium", "minimize"):
+        fam = "lcosh" if functional == "minimize" else "tanh06"
+        for method in ("newton", "broyden1"):
+            for bck in ("cg_posdef", "bicgstab_dflt"):
+                for (n, kind) in ((1, "n"), (1, "n1"), (2, "2n"), (8, "n")):
+                    if bck == "bicgstab_dflt" and n != 1:
+                        continue
+                    for placement in ("explicit", "editable"):
+                        out.append({"functional": functional, "method": method, "family": fam, "dtype": "float64",
+                                    "n": n, "shape": kind, "bck_method": bck, "placement": placement,
+                                    "guess": "zero", "cot": "dense", "plane": 0, "seed": 0})
     # objects holding a non-differentiable tensor before / after the differentiable ones
     for functional in ("rootfinder", "equilibrium", "minimize"):
         fam = "lcosh" if functional == "minimize" else "tanh06"
@@ -173,6 +185,12 @@ def _bck_options(cfg, N):
         return {"method": "exactsolve"}
     if b == "cg":
         return {"method": "cg", "posdef": False, "rtol": 1e-11, "atol": 1e-11, "max_niter": 20 * N + 40}
+    if b == "cg_posdef":
+        # the caller states posdef=True (true for these Jacobians' symmetric part); the Jacobian operator is not
+        # flagged Hermitian, so cg still has to work on the normal equations
+        return {"method": "cg", "posdef": True, "rtol": 1e-11, "atol": 1e-11, "max_niter": 20 * N + 40}
+    if b == "bicgstab_dflt":
+        return {"method": "bicgstab"}          # every option at its default, in particular max_niter = int(1.5 N)
     if b == "bicgstab":
         return {"method": "bicgstab", "posdef": True, "rtol": 1e-11, "atol": 1e-11, "max_niter": 20 * N + 40}
     if b == "gmres":
@@ -623,6 +641,14 @@ def run_case(cfg):
         # for the second order  =>  4e-11 / 1.6e-9; bounds one decade above (observed on a conforming tree <= 2e-11)
         t1, t2 = 1e-9, 1e-8
     if bck_warned:
+        # silence is required where convergence is certain: cg on the normal equations of a system with
+        # kappa <= 4 within 20 N + 40 iterations; bicgstab with its default budget on ONE unknown (a 1 x 1 system
+        # is solved by the first iteration)
+        if cfg["bck_method"] == "cg_posdef" or (cfg["bck_method"] == "bicgstab_dflt" and N == 1):
+            viol.append(V("backward-solver-warned-on-a-well-conditioned-system",
+                          {"bck_options": {k: (v if isinstance(v, (int, float, str, bool)) else str(v))
+                                           for k, v in _bck_options(cfg, N).items()}, "unknowns": N}))
+            return {"viol": viol, "obs": obs, "status": "violation"}
         obs["status"] = "bck-warned"
         return {"viol": viol, "obs": obs, "status": "bck-warned"}
     _cmp("grad-mismatch", names, g1, expand(a1), t1, viol, obs, 1, zero_names)
